@@ -898,7 +898,7 @@ Qed.
 Definition std_cfg : cfg :=
   {| own_mac := 366503875925; own_ip4 := IP4 3232235649; own_lla := IP6 338288524927261089654018896841347760425;
      rt_mac := 439804651110; rt_ip4 := IP4 3232235531;
-     lan_base := 3232235520; lan_bits := 24; offline_dl := 300; purge_dl := 3660 |}.
+     lan_base := 3232235520; lan_bits := 24; offline_dl := 300; purge_dl := 3660; probe_dl := 120 |}.
 
 Definition ex_mac1 : mac := 2932031007233.   (* 02:aa:aa:aa:aa:01 *)
 Definition ex_mac2 : mac := 2932031007234.
